@@ -5,6 +5,7 @@ import ast
 from typing import Dict, List, Optional, Set, Tuple
 
 from sa.analysis import Analysis
+from sa.analysis import VERSIONS as VERSIONS_ALL
 from sa.model import AnalysisError, ClassInfo, FunctionInfo, loc, norm_src
 
 ROOT_CLASS = "code_data::CodeData"
@@ -788,3 +789,80 @@ def old_interpreter_rule(an: Analysis, rep, rule: str, entries):
                         rep.add(rule, f"{f.qual}::{norm_src(c)[:50]}", False, loc(f.module, c),
                                 f"`{norm_src(c)[:70]}` uses {why[0]}, which exists from Python {why[1]}: {why[2]} - the tests only run on the newest interpreter, so they stay green", config=entry)
     rep.add(rule, "constructs newer than 3.7 in the API closures", True, "code_data/", f"closures of {list(entries)} examined ({n} `|` operators typed)", nontrivial=False)
+
+
+def set_order_rule(an: Analysis, rep, rule: str, entries):
+    """A sequence built from a set made during the call (`tuple(set(xs))`, `list({...})`, `[... for x in seen]`) has the set's iteration order, which for
+    strings and for objects hashed through strings changes with PYTHONHASHSEED: the same input gives another result in another process / on another host.
+    (A frozenset constant of the INPUT iterated into the JSON list is the listing order the property leaves open; loops that only fold a set into an
+    order-independent value are not sequences.)"""
+    rep.rule(rule, "no sequence is built from the iteration order of a set made during the call", 0)
+    n = 0
+    seen = set()
+    for entry in entries:
+        for V in VERSIONS_ALL:
+            it, _ = an.interp(entry, V)
+            for f in an.closure(entry, V):
+                for node in ast.walk(f.node):
+                    srcs = []
+                    if isinstance(node, ast.Call) and isinstance(node.func, ast.Name) and node.func.id in ("tuple", "list") and len(node.args) == 1:
+                        srcs = [node.args[0]]
+                    elif isinstance(node, (ast.ListComp, ast.GeneratorExp)) :
+                        srcs = [g.iter for g in node.generators]
+                    elif isinstance(node, (ast.Tuple, ast.List)):
+                        srcs = [e.value for e in node.elts if isinstance(e, ast.Starred)]
+                    for s_ in srcs:
+                        key = (f.qual, getattr(s_, "lineno", 0), getattr(s_, "col_offset", 0))
+                        if key in seen:
+                            continue
+                        n += 1
+                        made = [a for a in it.value_at(s_) if a[0] == "obj" and it.obj_kind(a) == "set"]
+                        direct = isinstance(s_, (ast.Set, ast.SetComp)) or (isinstance(s_, ast.Call) and isinstance(s_.func, ast.Name) and s_.func.id == "set")
+                        if made or direct:
+                            seen.add(key)
+                            rep.add(rule, f"{f.qual}::sequence from `{norm_src(s_)[:50]}`", False, loc(f.module, s_),
+                                    f"`{norm_src(node)[:70]}` turns a set made during the call into a sequence: its order is the set's iteration order, which depends on the hash seed for "
+                                    f"strings (and for every object hashed through one) - the same input gives another result in another process", config=entry)
+    rep.add(rule, "set-to-sequence conversions examined", True, "code_data/", f"{n} conversions / comprehension sources in the closures of {list(entries)}", nontrivial=False)
+
+
+PROCESS_STATE = {
+    "sys": {"flags", "argv", "path", "modules", "stdin", "stdout", "stderr", "warnoptions", "_xoptions", "dont_write_bytecode",
+            "getdefaultencoding", "getfilesystemencoding", "executable", "prefix"},  # (getrecursionlimit / gettrace are read to restore a setting afterwards: R12.7)
+    "os": {"environ", "getenv", "getcwd", "getpid", "urandom", "times", "cpu_count"},
+    "time": None, "random": None, "locale": None, "datetime": None, "getpass": None, "socket": None, "platform": None, "tempfile": None, "uuid": None, "secrets": None,
+}
+
+
+def process_state_rule(an: Analysis, rep, rule: str, entries):
+    """The result of an API call is a function of its argument: nothing in the closure reads interpreter options (sys.flags: -O / -OO), the command line, the
+    environment, the clock or a random source - a result that changes with `python -OO` or PYTHONHASHSEED is not the value the property describes."""
+    rep.rule(rule, "the API closures read no interpreter option, environment variable, clock or random source", 0)
+    n = 0
+    seen = set()
+    for entry in entries:
+        for f in an.closure_all(entry):
+            if f.qual in seen:
+                continue
+            seen.add(f.qual)
+            shadow = set(f.params)
+            for node in ast.walk(f.node):
+                hit = None
+                if isinstance(node, ast.Attribute) and isinstance(node.value, ast.Name) and node.value.id not in shadow:
+                    r = an.prog.resolve_global(f.module, node.value.id, f)
+                    if r and r[0] == "ext":
+                        top = r[1].split(".")[0]
+                        if top in PROCESS_STATE and (PROCESS_STATE[top] is None or node.attr in PROCESS_STATE[top]) and r[1] == top:
+                            hit = f"{top}.{node.attr}"
+                elif isinstance(node, ast.Name) and isinstance(node.ctx, ast.Load) and node.id not in shadow:
+                    r = an.prog.resolve_global(f.module, node.id, f)
+                    if r and r[0] == "ext" and "." in r[1]:
+                        top, attr = r[1].split(".")[0], r[1].split(".")[1]
+                        if top in PROCESS_STATE and (PROCESS_STATE[top] is None or attr in PROCESS_STATE[top]):
+                            hit = r[1]
+                if hit:
+                    n += 1
+                    rep.add(rule, f"{f.qual}::{hit}", False, loc(f.module, node),
+                            f"`{norm_src(node)}` ({hit}) is read inside a function the API reaches: what the call returns depends on how the interpreter was started or on its "
+                            f"surroundings (e.g. `python -OO`), not only on its argument", config=entry)
+    rep.add(rule, "process state reads in the API closures", True, "code_data/", f"{len(seen)} functions of the closures of {list(entries)} examined, {n} read(s) found", nontrivial=False)
